@@ -194,4 +194,76 @@ theorem loadVariants_eq (ver : PyVal) (o : OutCells) (hn : OutNodup o) :
     | error e => rfl
     | ok acc' => exact ih (fun x hx => hsub x (List.mem_cons_of_mem _ hx)) acc'
 
+/-! ### loading valid, compatible entries under the current format version -/
+
+theorem cur_not_old_images : gateEval Gen.gate_images_Images_deserialize_0 (.nums Gen.VERSION) = .ok false := by decide +kernel
+theorem cur_enforces : Enforces (.str currentVersion) := by unfold Enforces; decide +kernel
+
+/-- the statement list of the current source accepts an admissible, compatible image and files it -/
+theorem add_accepts (s : ImgState) (v a : Str) (id : Nat) (img : Image) (hv : Enforces s.version)
+    (ha : Gen.RPM_ARCHES.contains a = true) (hr : refusedArches.contains a = false) (hc : conflict s.cells img = false) :
+    add s v a id img = ({ s with cells := cellsAdd s.cells v a id img }, .ok ()) := by
+  have hsc := scan_enforced v a id img s hv
+  rw [hc] at hsc
+  simp only [runStep] at hsc
+  simp only [add, addScript, Gen.images_add_script, runSteps, runStep, ha, hr]
+  simp only [Bool.false_eq_true, ↓reduceIte, hsc]
+
+theorem loadOne_good (images : PyVal) (s : ImgState) (n : Nat) (v a : Str) (i : Image)
+    (hs : s.version = .str currentVersion) (hval : i.validate = .ok ()) (hp : ProperInts i)
+    (ha : Gen.RPM_ARCHES.contains a = true) (hr : refusedArches.contains a = false) (hc : conflict s.cells i = false) :
+    loadCell (.str currentVersion) images (.str v) (.str a) [i.dict] (s, n)
+      = .ok ({ s with cells := cellsAdd s.cells v a n i }, n + 1) := by
+  have hacc := add_accepts s v a n i (hs ▸ cur_enforces) ha hr hc
+  simp only [loadCell, image_roundtrip i hval hp, cur_vt, cur_not_old_images, fileLoaded, addPy, hacc, bind, Except.bind]
+  rfl
+
+theorem triples_cellsAdd (v a : Str) (n : Nat) (i : Image) (cs : Cells) (h : IdsBelow n cs) :
+    (triples (cellsAdd cs v a n i)).Perm ((v, a, i) :: triples cs) ∧ IdsBelow (n + 1) (cellsAdd cs v a n i) := by
+  have hp := cellsAdd_perm v a n i cs (fun e he => Nat.ne_of_lt (h e he))
+  constructor
+  · exact hp.map (fun e => (e.1, e.2.1, e.2.2.2))
+  · intro e he
+    rcases List.mem_cons.mp (hp.mem_iff.mp he) with rfl | h'
+    · exact Nat.lt_succ_self _
+    · exact Nat.lt_succ_of_lt (h e h')
+
+theorem loadTriples_good (images : PyVal) (A : List Image)
+    (hA : ∀ i ∈ A, ∀ j ∈ A, SameIdentity i j → PyEq i.checksums j.checksums)
+    (hAv : ∀ i ∈ A, i.validate = .ok () ∧ ProperInts i) :
+    ∀ (us : List (Str × Str × Image)) (s : ImgState) (n : Nat),
+      (∀ u ∈ us, u.2.2 ∈ A ∧ Gen.RPM_ARCHES.contains u.2.1 = true ∧ refusedArches.contains u.2.1 = false) →
+      s.version = .str currentVersion → (∀ x ∈ s.cells.all, x ∈ A) → IdsBelow n s.cells →
+      ∃ s', loadTriples (.str currentVersion) images (us.map fun u => (u.1, u.2.1, u.2.2.dict)) (s, n) = .ok (s', n + us.length)
+        ∧ s'.version = s.version ∧ s'.compose = s.compose ∧ (triples s'.cells).Perm (us ++ triples s.cells) := by
+  intro us
+  induction us with
+  | nil => intro s n _ _ _ _; exact ⟨s, rfl, rfl, rfl, List.Perm.refl _⟩
+  | cons u rest ih =>
+    intro s n hus hs hsub hids
+    obtain ⟨v, a, i⟩ := u
+    obtain ⟨hiA, ha, hr⟩ := hus (v, a, i) List.mem_cons_self
+    have hc : conflict s.cells i = false := by
+      rw [conflict_false_iff]
+      intro cur hcur hid
+      exact hA cur (hsub cur hcur) i hiA hid
+    have h1 := loadOne_good images s n v a i hs (hAv i hiA).1 (hAv i hiA).2 ha hr hc
+    obtain ⟨htr, hids'⟩ := triples_cellsAdd v a n i s.cells hids
+    have hsub' : ∀ x ∈ (cellsAdd s.cells v a n i).all, x ∈ A := by
+      intro x hx
+      rcases mem_cellsAdd hx with rfl | h'
+      · exact hiA
+      · exact hsub x h'
+    obtain ⟨s', hl, hv', hc', hp'⟩ := ih { s with cells := cellsAdd s.cells v a n i } (n + 1)
+      (fun u hu => hus u (List.mem_cons_of_mem _ hu)) hs hsub' hids'
+    refine ⟨s', ?_, hv', hc', ?_⟩
+    · simp only [List.map_cons, loadTriples, h1, Except.bind]
+      rw [hl]
+      simp only [List.length_cons]
+      congr 2
+      omega
+    · refine hp'.trans ?_
+      simp only [List.cons_append]
+      exact (List.Perm.append_left rest htr).trans List.perm_middle
+
 end PM.Img
